@@ -40,22 +40,36 @@ type loopCase struct {
 	SlowMs     int    `json:"slow_ms"`     // what one hand-over takes (longer than the interval)
 	Batches    []int  `json:"batches"`     // number of keys becoming pending together
 	Perm       []int  `json:"perm"`        // row order of the first batch
+	// one failing tick: FailKind "refuse" - in batch FailAt the mechanism refuses the call number
+	// RefuseCall (counted within the batch, both mechanisms) once; "query" - one execution of
+	// GetAndDeleteEonPublicKeys fails before batch FailAt becomes pending.  "" - no failure.
+	FailKind   string `json:"fail_kind,omitempty"`
+	FailAt     int    `json:"fail_at,omitempty"`
+	RefuseCall int    `json:"refuse_call,omitempty"`
 }
 
-const keyLoopDrop = "C20:keys-dropped-when-publication-slower-than-polling-interval"
+const (
+	keyLoopDrop  = "C20:keys-dropped-when-publication-slower-than-polling-interval"
+	keyLoopStops = "C20:keys-recorded-after-a-failed-tick-never-published"
+)
 
 type slowRec struct {
-	mu    sync.Mutex
-	calls []handed
-	slow  time.Duration
-	addr  [20]byte
+	mu       sync.Mutex
+	calls    []handed
+	slow     time.Duration
+	addr     [20]byte
+	refuseAt int // index (over all calls of the run) of the one call that is refused; -1: none
 }
 
-func (r *slowRec) add(h handed) {
-	time.Sleep(r.slow) // the mechanism is slow; it accepts whatever it is offered
+// add records a call; the mechanism is slow and accepts whatever it is offered, except for the
+// one scripted refusal.
+func (r *slowRec) add(h handed) bool {
+	time.Sleep(r.slow)
 	r.mu.Lock()
+	defer r.mu.Unlock()
+	h.Accepted = len(r.calls) != r.refuseAt
 	r.calls = append(r.calls, h)
-	r.mu.Unlock()
+	return h.Accepted
 }
 
 func (r *slowRec) snapshot() []handed {
@@ -75,8 +89,10 @@ func (m *slowMessaging) SendMessage(_ context.Context, msg p2pmsg.Message, _ ...
 		return nil
 	}
 	sok, err := p2pmsg.VerifySignature(e, m.r.addr)
-	m.r.add(handed{Mech: "broadcast", Instance: e.InstanceId, Key: append([]byte(nil), e.PublicKey...),
-		Act: e.ActivationBlock, Kci: e.KeyperConfigIndex, Eon: e.Eon, Accepted: true, SigOK: sok && err == nil})
+	if !m.r.add(handed{Mech: "broadcast", Instance: e.InstanceId, Key: append([]byte(nil), e.PublicKey...),
+		Act: e.ActivationBlock, Kci: e.KeyperConfigIndex, Eon: e.Eon, SigOK: sok && err == nil}) {
+		return errRefused
+	}
 	return nil
 }
 
@@ -90,15 +106,17 @@ func runLoop(run *vh.Run, e *env, c loopCase) {
 	self := poolAddrs[0]
 	cfg := &kprconfig.Config{InstanceID: 9,
 		Ethereum: &configuration.EthnodeConfig{PrivateKey: &keys.ECDSAPrivate{Key: poolKeys[0]}}}
-	rec := &slowRec{slow: time.Duration(c.SlowMs) * time.Millisecond, addr: ethcrypto.PubkeyToAddress(poolKeys[0].PublicKey)}
+	rec := &slowRec{slow: time.Duration(c.SlowMs) * time.Millisecond, addr: ethcrypto.PubkeyToAddress(poolKeys[0].PublicKey), refuseAt: -1}
 	var opts []keyper.Option
 	if !c.Bcast {
 		opts = append(opts, keyper.NoBroadcastEonPublicKey())
 	}
 	if c.Cb {
 		opts = append(opts, keyper.WithEonPublicKeyHandler(func(_ context.Context, pk keyper.EonPublicKey) error {
-			rec.add(handed{Mech: "callback", Key: append([]byte(nil), pk.PublicKey...), Act: pk.ActivationBlock,
-				Kci: pk.KeyperConfigIndex, Eon: pk.Eon, Accepted: true})
+			if !rec.add(handed{Mech: "callback", Key: append([]byte(nil), pk.PublicKey...), Act: pk.ActivationBlock,
+				Kci: pk.KeyperConfigIndex, Eon: pk.Eon}) {
+				return errRefused
+			}
 			return nil
 		}))
 	}
@@ -149,9 +167,18 @@ func runLoop(run *vh.Run, e *env, c loopCase) {
 			<-done
 		}
 	}()
-	var expected []want // in the order in which the keys have to come out
+	mechs := []string{}
+	if c.Bcast {
+		mechs = append(mechs, "broadcast")
+	}
+	if c.Cb {
+		mechs = append(mechs, "callback")
+	}
+	expected := map[string][]want{} // per mechanism: what it has to accept, in order
+	exempt := 0                     // keys behind a refused key in its batch (deleted, never offered: known semantics)
 	next := 0
-	seen := 0
+	seenCalls := 0
+	afterFailure := false
 	for b, n := range c.Batches {
 		perm := make([]int, n)
 		for j := range perm {
@@ -159,6 +186,13 @@ func runLoop(run *vh.Run, e *env, c loopCase) {
 		}
 		if b == 0 && len(c.Perm) == n {
 			perm = c.Perm
+		}
+		if c.FailKind == "query" && b == c.FailAt && started {
+			// one transient failure of the query: the tick returns its error, nothing is deleted
+			e.srv.FailNext("keyper/database.GetAndDeleteEonPublicKeys", "57014", 0)
+			time.Sleep(time.Duration(4*c.IntervalMs+20) * time.Millisecond)
+			obs = append(obs, "(KTickFails, OQueryFailed, "+coqOutRows(e.outgoing())+")")
+			afterFailure = true
 		}
 		// the keys of one batch become pending together
 		var batch []want
@@ -182,8 +216,34 @@ func runLoop(run *vh.Run, e *env, c loopCase) {
 		for j, p := range perm {
 			ordered[j] = batch[p]
 		}
-		expected = append(expected, ordered...)
 		next += n
+		// what this batch's tick has to do
+		wantCalls := n * nmech
+		var answers []string
+		refusedClass := "ENone"
+		if c.FailKind == "refuse" && b == c.FailAt && c.RefuseCall >= 0 && c.RefuseCall < n*nmech {
+			rec.mu.Lock()
+			rec.refuseAt = seenCalls + c.RefuseCall
+			rec.mu.Unlock()
+			wantCalls = c.RefuseCall + 1
+			kr, mp := c.RefuseCall/nmech, c.RefuseCall%nmech
+			for pm, m := range mechs {
+				expected[m] = append(expected[m], ordered[:kr]...)
+				if pm < mp {
+					expected[m] = append(expected[m], ordered[kr])
+				}
+			}
+			exempt += n - kr - 1
+			for j := 0; j < c.RefuseCall; j++ {
+				answers = append(answers, "true")
+			}
+			answers = append(answers, "false")
+			refusedClass = map[string]string{"broadcast": "EBroadcast", "callback": "ECallback"}[mechs[mp]]
+		} else {
+			for _, m := range mechs {
+				expected[m] = append(expected[m], ordered...)
+			}
+		}
 		if b == 0 {
 			p0 := perm
 			e.srv.SetRowOrder(func(table string, k int) []int {
@@ -203,9 +263,9 @@ func runLoop(run *vh.Run, e *env, c loopCase) {
 			}()
 		}
 		// wait until the batch is out, or for as long as a correct loop could possibly need
-		budget := time.Duration(n*nmech*c.SlowMs+6*c.IntervalMs+20000) * time.Millisecond // generous: a loaded machine must not turn into a report
+		budget := time.Duration(wantCalls*c.SlowMs+8*c.IntervalMs+600) * time.Millisecond
 		deadline := time.Now().Add(budget)
-		for time.Now().Before(deadline) && len(rec.snapshot()) < (seen+n)*nmech {
+		for time.Now().Before(deadline) && len(rec.snapshot()) < seenCalls+wantCalls {
 			time.Sleep(2 * time.Millisecond)
 		}
 		// a few more intervals: nothing else may come
@@ -214,7 +274,10 @@ func runLoop(run *vh.Run, e *env, c loopCase) {
 			e.srv.SetRowOrder(nil)
 		}
 		calls := rec.snapshot()
-		now := calls[min(seen*nmech, len(calls)):]
+		now := calls[min(seenCalls, len(calls)):]
+		if afterFailure && len(now) < wantCalls {
+			run.Dist["loop:batch-after-failed-tick-incomplete"]++
+		}
 		// correspondence: the batch as generations followed by one tick in the given order
 		for j := 0; j < n; j++ {
 			w := batch[j]
@@ -224,8 +287,11 @@ func runLoop(run *vh.Run, e *env, c loopCase) {
 		for j, p := range perm {
 			ps[j] = vh.CNat(p)
 		}
-		obs = append(obs, "("+vh.CApp("KTick", vh.CList(ps), "[]")+", "+vh.CApp("OTick", coqCalls(now), "ENone")+", "+coqOutRows(e.outgoing())+")")
-		seen += n
+		obs = append(obs, "("+vh.CApp("KTick", vh.CList(ps), vh.CList(answers))+", "+vh.CApp("OTick", coqCalls(now), refusedClass)+", "+coqOutRows(e.outgoing())+")")
+		seenCalls += wantCalls
+		if refusedClass != "ENone" {
+			afterFailure = true
+		}
 	}
 	cancel()
 	<-done
@@ -233,24 +299,22 @@ func runLoop(run *vh.Run, e *env, c loopCase) {
 
 	// ---- oracle ----------------------------------------------------------------------------
 	calls := rec.snapshot()
-	for _, m := range []string{"broadcast", "callback"} {
-		if (m == "broadcast" && !c.Bcast) || (m == "callback" && !c.Cb) {
-			continue
-		}
+	failed := c.FailKind == "refuse" || c.FailKind == "query"
+	for _, m := range mechs {
 		var got []want
 		for _, cl := range calls {
-			if cl.Mech == m {
+			if cl.Mech == m && cl.Accepted {
 				got = append(got, want{Key: cl.Key, Act: cl.Act, Kci: cl.Kci, Eon: cl.Eon})
 				if m == "broadcast" && (!cl.SigOK || cl.Instance != 9) {
 					violate("C20:bad-signature", "loop: broadcast message with a wrong instance id or signature", cl, nil)
 				}
 			}
 		}
-		gs, ws := fmt.Sprint(got), fmt.Sprint(expected)
-		if gs == ws {
+		exp := expected[m]
+		if fmt.Sprint(got) == fmt.Sprint(exp) {
 			continue
 		}
-		gotMS, wantMS := multiset(got), multiset(expected)
+		gotMS, wantMS := multiset(got), multiset(exp)
 		missing, extra := 0, 0
 		for k, n := range wantMS {
 			if gotMS[k] < n {
@@ -264,12 +328,20 @@ func runLoop(run *vh.Run, e *env, c loopCase) {
 		}
 		switch {
 		case extra > 0:
-			violate("C20:handed-twice", fmt.Sprintf("loop: %s was handed %d keys more than were generated (or keys that were not generated)", m, extra), got, expected)
+			violate("C20:handed-twice", fmt.Sprintf("loop: %s accepted %d keys more than it had to be handed (twice, not generated, or from behind a refused key)", m, extra), got, exp)
+		case missing > 0 && failed:
+			violate(keyLoopStops, fmt.Sprintf("loop (%d ms interval) with one failed tick (%s): %d keys recorded after that tick were never handed to %s although the loop kept running for many intervals (%d rows still in outgoing_eon_keys)", c.IntervalMs, c.FailKind, missing, m, len(e.outgoing())), got, exp)
 		case missing > 0:
-			violate(keyLoopDrop, fmt.Sprintf("loop with a %d ms polling interval and a mechanism that accepts every key after %d ms: %d of %d pending keys were never handed to %s although the loop ran on (they are no longer in outgoing_eon_keys: %d rows left)", c.IntervalMs, c.SlowMs, missing, len(expected), m, len(e.outgoing())), got, expected)
+			violate(keyLoopDrop, fmt.Sprintf("loop with a %d ms polling interval and a mechanism that accepts every key after %d ms: %d of %d pending keys were never handed to %s although the loop ran on (they are no longer in outgoing_eon_keys: %d rows left)", c.IntervalMs, c.SlowMs, missing, len(exp), m, len(e.outgoing())), got, exp)
 		default:
-			violate("C20:loop-order", fmt.Sprintf("loop: %s was handed the keys of a batch in another order than the query delivered them", m), got, expected)
+			violate("C20:loop-order", fmt.Sprintf("loop: %s was handed the keys of a batch in another order than the query delivered them", m), got, exp)
 		}
+	}
+	if exempt > 0 {
+		run.Dist["loop:keys-lost-behind-a-refused-key"] += exempt
+	}
+	if failed {
+		run.Dist["loop:failed-tick="+c.FailKind]++
 	}
 	run.Dist["loop:runs"]++
 	run.Dist[fmt.Sprintf("loop:batches=%d", len(c.Batches))]++
@@ -292,6 +364,12 @@ func forcedLoops() []loopCase {
 		{Kind: "loop", Cb: true, IntervalMs: 20, SlowMs: 30, Batches: []int{3, 2}, Perm: []int{2, 0, 1}},
 		{Kind: "loop", Bcast: true, Cb: true, IntervalMs: 20, SlowMs: 25, Batches: []int{2, 1, 2}, Perm: []int{1, 0}},
 		{Kind: "loop", Cb: true, IntervalMs: 25, SlowMs: 5, Batches: []int{4, 1}, Perm: []int{3, 2, 1, 0}}, // a fast mechanism
+		// one failing tick, then two keys within one interval, then a later one
+		{Kind: "loop", Bcast: true, IntervalMs: 20, SlowMs: 2, Batches: []int{1, 2, 1}, Perm: []int{0}, FailKind: "refuse", FailAt: 0, RefuseCall: 0},
+		{Kind: "loop", Cb: true, IntervalMs: 20, SlowMs: 2, Batches: []int{3, 2, 1}, Perm: []int{1, 2, 0}, FailKind: "refuse", FailAt: 0, RefuseCall: 1},
+		{Kind: "loop", Bcast: true, Cb: true, IntervalMs: 20, SlowMs: 2, Batches: []int{2, 2, 2, 1}, Perm: []int{1, 0}, FailKind: "refuse", FailAt: 1, RefuseCall: 1},
+		{Kind: "loop", Cb: true, IntervalMs: 20, SlowMs: 2, Batches: []int{1, 2, 1}, Perm: []int{0}, FailKind: "query", FailAt: 1},
+		{Kind: "loop", Bcast: true, IntervalMs: 20, SlowMs: 25, Batches: []int{2, 2, 1}, Perm: []int{1, 0}, FailKind: "query", FailAt: 1},
 	}
 }
 
@@ -310,6 +388,21 @@ func randomLoop(r *vh.RNG) loopCase {
 		c.Batches = append(c.Batches, 2+r.Intn(3))
 	}
 	c.Perm = r.Perm(c.Batches[0])
+	if r.Chance(1, 2) {
+		// one failing tick followed by further batches
+		c.Batches = append(c.Batches, 2, 1)
+		c.SlowMs = 1 + r.Intn(c.IntervalMs)
+		nm := 1
+		if c.Bcast && c.Cb {
+			nm = 2
+		}
+		if r.Chance(1, 2) {
+			c.FailKind, c.FailAt = "refuse", r.Intn(len(c.Batches)-2)
+			c.RefuseCall = r.Intn(c.Batches[c.FailAt] * nm)
+		} else {
+			c.FailKind, c.FailAt = "query", 1+r.Intn(len(c.Batches)-2)
+		}
+	}
 	return c
 }
 
